@@ -570,6 +570,9 @@ class DynDiGraph(nx.DiGraph):
         # add the interaction; stream events are emitted once the effect on the timeline is known
         datadict = self.adj[u].get(v, self.edge_attr_dict_factory())
 
+        # instants at which the interaction was not present before this call
+        covered = range(t[0], t[1] + 1)
+
         if 't' in datadict:
             app = datadict['t']
             start, max_end = app[-1]
@@ -585,34 +588,28 @@ class DynDiGraph(nx.DiGraph):
             elif t[1] > max_end:
                 # the span overlaps or touches the latest run: the run is extended and its vanishing moves
                 app[-1] = [start, t[1]]
+                covered = range(max_end + 1, t[1] + 1)
                 self.__del_event(u, v, "-", max_end + 1)
                 # (a one-instant run extended by a single instant is left open, as it always was)
                 if self.edge_removal and (e is not None or start < max_end):
                     self.__add_event(u, v, "-", t[1] + 1)
 
-            elif e is not None and self.edge_removal and t[1] == max_end:
-                # a span inside the latest run is already covered by it; its vanishing is restated
-                self.__add_event(u, v, "-", e)
+            else:
+                # a span inside the latest run is already covered by it; its vanishing may be restated
+                covered = []
+                if e is not None and self.edge_removal and t[1] == max_end:
+                    self.__add_event(u, v, "-", e)
         else:
             datadict['t'] = [t]
             self.__add_event(u, v, "+", t[0])
             if e is not None and self.edge_removal:
                 self.__add_event(u, v, "-", e)
 
-        if e is not None:
-            span = range(t[0], t[1] + 1)
-            for idt in span:
-                if idt not in self.snapshots:
-                    self.snapshots[idt] = 1
-                else:
-                    self.snapshots[idt] += 1
-        else:
-            for idt in t:
-                if idt is not None:
-                    if idt not in self.snapshots:
-                        self.snapshots[idt] = 1
-                    else:
-                        self.snapshots[idt] += 1
+        # every snapshot counts the interactions present in it exactly once
+        if not self.edge_removal:
+            covered = [t[0]]
+        for idt in covered:
+            self.snapshots[idt] = self.snapshots.get(idt, 0) + 1
 
         self._succ[u][v] = datadict
         self._pred[v][u] = datadict
@@ -1422,10 +1419,10 @@ class DynDiGraph(nx.DiGraph):
         {0: 3, 1: 3, 2: 3}
         """
         if t is None:
-            return {k: v / 2 for k, v in self.snapshots.items()}
+            return dict(self.snapshots)
         else:
             try:
-                return self.snapshots[t] / 2
+                return self.snapshots[t]
             except KeyError:
                 return 0
 
